@@ -138,9 +138,36 @@ def run(chk):
         if mr["m"] is None or d:
             d = d or (0, "", "model produced no output " + mr.get("err_m", "")[-200:])
             dis.append(({"ops": r["ops"], "c": expect[k][max(0, d[0] - 2):d[0] + 2], "m": mo[max(0, d[0] - 2):d[0] + 2]}, (d[0], d[1][:200], d[2][:200])))
+    # ---- the encoder's packets read by the specification decoder (Lean, Vorbis/Spec/Decode.lean): field widths, floor, residue, coupling and
+    # the transform as the specification text gives them, nothing borrowed from the library; every template family with one and with two block sizes
+    from . import c01 as C1
+    spec_cfg = [(1, 8000, "0.40"), (2, 8000, "0.10"), (1, 11025, "0.30"), (2, 11025, "-0.10"), (1, 16000, "-0.10"), (1, 16000, "0.50"), (2, 22050, "0.30"), (1, 44100, "0.50")]
+    if chk.tier == "thorough":
+        spec_cfg += [(2, 44100, "0.10"), (2, 32000, "0.70"), (3, 8000, "0.40"), (1, 48000, "1.00")]
+    scases = [["case %d" % (90000 + k), "enc %d %d %s %d %d %d" % (ch, rate, q, chk.rng.choice([1, 8, 9]), chk.rng.randint(1, 9999), 6 * 1024)] for k, (ch, rate, q) in enumerate(spec_cfg)]
+    sres = vlib.run_harness_only("c05", scases, timeout=3000)
+    c1cases = []
+    for r in sres:
+        if r["c"] is None:
+            crash.append(r)
+            continue
+        hd = [l[3:] for l in r["c"] if l.startswith("op hdr ")]
+        pk = [l.split(" ")[2] for l in r["c"] if l.startswith("op pkt ")]
+        if len(hd) == 3 and pk:
+            c1cases.append([r["ops"][0], "new"] + hd + ["init"] + ["pkt " + x for x in pk[:4 if chk.tier == "quick" else 8]] + ["#" + r["ops"][1]])
+    nspec = 0
+    for r in vlib.run_pair("c01", [c[:-1] for c in c1cases], timeout=3000):
+        if r["c"] is None or (r["rc_c"] != 0 and r.get("err_c")):
+            crash.append(r)
+            continue
+        pbl, st = C1.compare(r)
+        nspec += st["packets"]
+        if pbl:
+            ofail.append((dict(r, c=r["c"][:6]), "spec: the encoder's own packets, read by the specification decoder, differ from what the library decodes: " + pbl))
+    chk.coverage["packets_through_specification_decoder"] = nspec
     chk.coverage["rule"] = ("31 channel/rate configurations (+16/100/255/256 channels) x VBR qualities -0.1..1.0 and managed set-ups (nominal only, hard max, hard min, CBR, both, tiny reservoir) x "
                             "signals (sine, noise, silence, impulses, loud, one channel only, denormals, x10, harmonic tone complexes within and beyond full scale) x lengths; headers and every packet go through the C decoder and through the "
-                            "Lean header/packet-header model (strict: Huffman trees must be valid); oracles: header fields = encoder info, flags agree with neighbours, bits consumed. "
+                            "Lean header/packet-header model (strict: Huffman trees must be valid); oracles: header fields = encoder info, flags agree with neighbours, bits consumed; the first packets of one configuration per template family (one and two block sizes) are also decoded by the Lean specification decoder and compared sample by sample. "
                             "distinct = distinct enc lines")
     chk.coverage["distribution"] = dist
     chk.coverage["disagreements"] = len(dis)
@@ -150,6 +177,9 @@ def run(chk):
 
 
 def replay(chk, obj):
+    if "new" in obj["replay"]["ops"][:3]:
+        # the specification-decoder part: library and Lean decoder side by side
+        return __import__("checks.c01", fromlist=["replay"]).replay(chk, obj)
     res = vlib.run_harness_only("c05", [obj["replay"]["ops"]])
     for r in res:
         print("\n".join(l[:200] for l in (r["c"] or [])))
